@@ -40,6 +40,71 @@ func runC12(c *engine.Ctx) {
 	c12RequestIDs(c, r3)
 	c12OptionalFields(c, r4a)
 	c12NilFlows(c, r4b)
+	r5 := c.Rule("R5", "the decoder never indexes or slices a wire-supplied byte string or list at a fixed position without a dominating length test", 0)
+	c12FixedIndex(c, r5)
+}
+
+// c12FixedIndex: constant-position Index/IndexAddr/Slice on slices in decode-side functions need a length guard.
+func c12FixedIndex(c *engine.Ctx, rule string) {
+	fromR := c.P.Func("message/v2", "MessageHandler", "FromMsgReader")
+	if fromR == nil {
+		c.AnchorMissing(rule, "message/v2.MessageHandler.FromMsgReader")
+		return
+	}
+	fns := reachableIn(fromR, "message/v2", "message/ipldbind", "message")
+	if p := c.P.Func("", "", "ParseRequestID"); p != nil {
+		fns = append(fns, p)
+	}
+	n := 0
+	for _, f := range fns {
+		engine.Instrs(f, func(in ssa.Instruction) {
+			var base, idx ssa.Value
+			switch x := in.(type) {
+			case *ssa.IndexAddr:
+				base, idx = x.X, x.Index
+			case *ssa.Index:
+				base, idx = x.X, x.Index
+			case *ssa.Slice:
+				if x.Low != nil {
+					base, idx = x.X, x.Low
+				} else if x.High != nil {
+					base, idx = x.X, x.High
+				}
+			}
+			if base == nil {
+				return
+			}
+			if _, isSlice := base.Type().Underlying().(*types.Slice); !isSlice {
+				if _, isStr := base.Type().Underlying().(*types.Basic); !isStr {
+					return
+				}
+			}
+			k, isConst := engine.ConstInt(idx)
+			if !isConst {
+				return // loop-variable indexing is bounded by the range/len loop
+			}
+			// locally built slices (varargs arrays) are not wire data
+			if sl, ok := base.(*ssa.Slice); ok {
+				if _, isAlloc := sl.X.(*ssa.Alloc); isAlloc {
+					return
+				}
+			}
+			n++
+			guarded := false
+			for _, cd := range engine.InstrConds(in) {
+				if b, ok := cd.V.(*ssa.BinOp); ok {
+					if call, ok := b.X.(*ssa.Call); ok {
+						if bi, ok := call.Call.Value.(*ssa.Builtin); ok && bi.Name() == "len" && engine.SameValue(call.Call.Args[0], base) {
+							guarded = true
+						}
+					}
+				}
+			}
+			c.Decide(rule, fmt.Sprintf("%s|index %d", engine.FuncName(f), k), in.Pos(), guarded, "fixed-position access dominated by a length test of the same slice",
+				"the decoder reads a wire-supplied slice at a fixed position without checking its length: a short field panics")
+		})
+	}
+	c.Note("fixed-position accesses in decode-side functions: %d", n)
 }
 
 // ---- R1
